@@ -176,11 +176,13 @@ pub struct Plan {
     pub max_field: usize,
     /// also emit every proper prefix of G1/G5/G6/G8 outputs up to this length
     pub prefixes: usize,
+    /// targeted families (G9): None = off, Some(level)
+    pub g9: Option<usize>,
 }
 
 impl Plan {
     pub fn empty() -> Plan {
-        Plan { g1: false, g2_all: vec![], g2_small: vec![], g3: vec![], g4_line: 0, g4_hdr: 0, g5: 0, g6: 0, g8: false, lenient: 25, max_field: 300, prefixes: 0 }
+        Plan { g1: false, g2_all: vec![], g2_small: vec![], g3: vec![], g4_line: 0, g4_hdr: 0, g5: 0, g6: 0, g8: false, lenient: 25, max_field: 300, prefixes: 0, g9: None }
     }
 }
 
@@ -205,6 +207,9 @@ pub fn stream(kind: Kind, plan: &Plan, seed: u64, f: &mut dyn FnMut(&[u8], Tag))
         for t in &templates {
             emit_with_prefixes(t, Tag::G1, plan.prefixes, f);
         }
+    }
+    if let Some(level) = plan.g9 {
+        gen::g9_targeted(kind, level, &mut |b| emit_with_prefixes(b, Tag::G1, plan.prefixes.min(64), f));
     }
     if plan.g8 {
         for l in gen::g8_literals() {
@@ -240,6 +245,10 @@ pub fn stream(kind: Kind, plan: &Plan, seed: u64, f: &mut dyn FnMut(&[u8], Tag))
                     for q in 0..l {
                         for &v in values {
                             f(&gen::g3_message(kind, field, l, q, v, ph, (l + q) % 5 == 0), Tag::G3);
+                            if ph == 0 && l <= 48 {
+                                // obs-text-rich neighbourhood (carry / borrow between adjacent bytes of a word)
+                                f(&gen::g3_message_v(kind, field, l, q, v, ph, false, 1), Tag::G3);
+                            }
                         }
                     }
                 }
